@@ -82,6 +82,27 @@ Section Frame.
   Qed.
 End Frame.
 
+(** objects that share no storage with the trained component and its optimizer read back identically *)
+Lemma shares_false o1 o2 : shares o1 o2 = false -> forall p l, In (p, l) o1 -> ~ In l (map snd o2).
+Proof.
+  unfold shares. intros H p l Hin Hl.
+  assert (Ht : existsb (fun pl => mem (snd pl) (map snd o2)) o1 = true).
+  { apply existsb_exists. exists (p, l). split; [exact Hin|]. cbn [snd]. apply mem_In. exact Hl. }
+  rewrite Ht in H. discriminate.
+Qed.
+
+Lemma disjoint_object_unchanged V (r : routine) (orc : leaf -> V) (h : heap V) (o ot : obj) :
+  (forall l, In l (write_set r) -> In l (map snd ot)) -> shares o ot = false ->
+  read V (apply V r orc h) o = read V h o.
+Proof.
+  intros Hws Hsh. apply apply_frame_obj. intros p l Hin Hl.
+  apply (shares_false o ot Hsh p l Hin). apply Hws. exact Hl.
+Qed.
+
+Example sharing_example :
+  sharing [[(0, 3); (1, 7)]; [(0, 5)]; [(0, 9); (1, 7)]] = [(0, 2)] /\ sharing [[(0, 1)]; [(0, 2)]] = [].
+Proof. split; reflexivity. Qed.
+
 (** the executable check used by the harness: empty iff every changed path is explained *)
 Lemma frame_violations_spec ws o changed :
   frame_violations ws o changed = [] <-> (forall p, In p changed -> In p (may_change ws o)).
